@@ -166,6 +166,8 @@ def check(run, views, tier):
         run.floor("R-LAYOUT", ndec, 19, "decoder arms")
         nl = rr.r_lossy(run, F)
         run.floor("R-LOSSY", nl, 13 if rr.async_on(F) else 12, "lossy text conversions")
+        nrej = rr.r_reject(run, F)
+        run.floor("R-REJECT", nrej, 5 if rr.async_on(F) else 4, "explicit rejection sites in the parse cone")
         r_state_order(run, F)
         from .c19 import check_ordered
         check_ordered(run, F)
